@@ -14,6 +14,9 @@ import (
 	"strings"
 )
 
+// activeProperty: id of the property being checked ("" in debug / funcs: every clause is read); see only_for.
+var activeProperty = os.Getenv("GOVC_PROP")
+
 // ---------------------------------------------------------------------------
 // Expression AST
 
@@ -161,6 +164,7 @@ var clauseKeywords = map[string]bool{
 	"ghost": true, "assigns": true, "modular": true, "inline": true, "trusted": true,
 	"mode": true, "alloc_bound": true, "pure": true, "protected_by": true, "immutable": true,
 	"inv": true, "opaque": true, "havoc": true, "noinline": true, "bounded": true, "returns_fresh": true, "fresh_result": true, "deep_closedness": true,
+	"only_for": true, "bitprecise": true,
 	"sweep": true, "cover": true, "replay_hint": true, "never_writes": true, "frame_only": true, "reveal": true, "iface_calls_only": true, "direct_calls_only": true,
 	"requires_held": true, "writers": true, "never_calls": true, "spawn_never_writes": true, "unshared_receiver": true, "sync": true, "owner_lock": true, "complete": true,
 	"rep_invariant": true, "nested_closedness": true, "dominated": true, "writes_unconditionally": true, "reads_only": true, "deterministic": true,
@@ -205,8 +209,30 @@ func (cs *ContractSet) ParseContractFile(path string, pkgPath string) error {
 	var cur *FuncContract
 	var curType *TypeContract
 	var lastSpec *SpecFunc
+	// only_for Cnn[, Cmm]: the clauses that follow in this function block are read only when the property being
+	// checked is one of the listed ones (activeProperty == "" reads everything: debug, funcs). Lets one property
+	// add clauses to a function that is also a root of another property without changing that property's
+	// obligations.
+	var curOnly map[string]bool
 	for _, l := range lines {
 		word, rest := splitWord(l.text)
+		switch word {
+		case "func", "extern", "type", "spec", "axiom":
+			curOnly = nil
+		case "only_for":
+			if cur == nil {
+				return fmt.Errorf("%s:%d: only_for outside func", path, l.no)
+			}
+			curOnly = map[string]bool{}
+			for _, id := range strings.Split(rest, ",") {
+				curOnly[strings.TrimSpace(id)] = true
+			}
+			continue
+		default:
+			if cur != nil && curOnly != nil && activeProperty != "" && !curOnly[activeProperty] {
+				continue
+			}
+		}
 		if strings.HasSuffix(word, ":") && clauseKeywords[strings.TrimSuffix(word, ":")] {
 			word, rest = strings.TrimSuffix(word, ":"), ":"+rest
 		}
@@ -491,6 +517,17 @@ func (cs *ContractSet) ParseContractFile(path string, pkgPath string) error {
 				case "havoc":
 					// at callee#n havoc: at this call site only, do not inline the (first-party) callee: havoc its
 					// write set and take an arbitrary result (sound over-approximation; see calls_ops.go)
+				case "start":
+					// at <anchor> before|after start   (cut.go)
+				case "cut":
+					// at <anchor> before cut [tag] [invariant]   (cut.go)
+					if strings.TrimSpace(r3) != "" {
+						c, err := mkClause(r3)
+						if err != nil {
+							return err
+						}
+						ac.Clause = c
+					}
 				default:
 					return fmt.Errorf("%s:%d: unknown at-kind %q", path, l.no, w)
 				}
